@@ -812,6 +812,21 @@ func c12Run(ctx *core.Ctx) {
 			}
 		}
 	}
+	// ---- part 4e: EVERY byte value as delimiter (NUL included; DelimByte 256 stands for byte 0), on the plain document
+	for d := 0; d < 256; d++ {
+		if strings.ContainsRune("\"\n\rnm1234", rune(d)) && d < 0x80 {
+			continue
+		}
+		db := d
+		if d == 0 {
+			db = 256
+		}
+		for _, k := range []int{0, 1, 3} {
+			if ctx.Mine() {
+				exec(csvCase{Gen: "bytes", Doc: fmt.Sprintf("%d,2", db), Conf: csvConf{DelimByte: db}, Chunk: k}, "every-delimiter-byte", true)
+			}
+		}
+	}
 	// ---- part 4c: enum columns at the cardinality limit (255 distinct values fit, more must be an error)
 	for _, k := range []int{254, 255, 256, 257} {
 		for _, chunk := range []int{0, 7} {
